@@ -90,6 +90,27 @@ def run(chk):
                     chk.fail("MAP variances after iteration %d are neither the stated blend nor the known D2 formula" % (k + 1),
                              dict(ctx, got=hexlist(m.variances), want=hexlist(evar)))
                 break
+            # no stale cache after MAP adaptation: the machine scores like a fresh one with the same visible parameters
+            fresh = make_gmm(np.array(m.weights), np.array(m.means), np.array(m.variances), thr=0.0)
+            if not np.allclose(np.asarray(m.log_likelihood(X)), np.asarray(fresh.log_likelihood(X)), rtol=1e-10, atol=1e-10):
+                chk.fail("after MAP iteration %d the machine's likelihood is not that of its visible weights/means/variances (stale cache)" % (k + 1), ctx)
+                break
+        # a component that had evidence in a first batch and has none in a second one returns to the prior
+        if i % 4 == 1 and C >= 2 and sw[0]:
+            sep = np.zeros((C, D))
+            sep[:, 0] = np.arange(C) * 200.0 * float(np.sqrt(var[:, 0].max()))
+            pmu = np.asarray(mu) + sep
+            b1 = np.vstack([pmu[c] + 0.3 * np.sqrt(var[c]) * gen.nprng(r).normal(size=(4, D)) for c in range(C)])
+            b2 = pmu[0] + 0.3 * np.sqrt(var[0]) * gen.nprng(r).normal(size=(5, D))          # only component 0 gets evidence
+            cfg2 = dict(cfg, cap=2, map=dict(relevance=relevance if relevance is not None else 4.0, alpha=alpha, prior=(w, pmu, var, thr)))
+            m2, prior2 = gt.build_machine(cfg2)
+            m2.fit(b1)
+            moved = not np.allclose(m2.means[1:], prior2.means[1:])
+            m2.fit(b2)
+            chk.count(1, key=("evidence-then-none", sw))
+            if moved and not np.allclose(np.asarray(m2.means)[1:], np.asarray(prior2.means)[1:], rtol=1e-12, atol=0):
+                chk.fail("a component that receives no evidence (after having been adapted on an earlier batch) does not keep the prior's mean",
+                         dict(ctx, batch1=hexlist(b1), batch2=hexlist(b2), prior_mu=hexlist(pmu)))
         # prior untouched
         if not (np.array_equal(prior.means, p0.means) and np.array_equal(prior.variances, p0.variances) and np.array_equal(prior.weights, p0.weights)):
             chk.fail("the prior (UBM) was modified by MAP training", ctx)
@@ -110,7 +131,8 @@ def run(chk):
                 chk.fail("relevance 1e-12 does not return the ML mean estimate", ctx)
         # ---- correspondence case
         c = gt.make_case(cfg, X, chunks)
-        terms.append(c["term"])
+        if c["well_conditioned"]:
+            terms.append(c["term"])
         if i < 2:
             chk.sample({"entry": "fit(trainer=map)", "switches": list(sw), "relevance": relevance, "alpha": alpha, "iterations": K,
                         "N": len(X), "C": C, "D": D, "starved": starve})
